@@ -126,12 +126,118 @@ Proof. unfold blen. rewrite app_length. lia. Qed.
 Lemma to_nat_blen {A} (l : list A) : N.to_nat (blen l) = length l.
 Proof. unfold blen. apply Nnat.Nat2N.id. Qed.
 
+(* ---- the linear-time primitives are the ones of Base.Bytes ---------------------------- *)
+
+Lemma ctake_eq : forall n bs, ctake n bs = take n bs.
+Proof.
+  induction n as [|n IH]; intro bs.
+  - unfold take. cbn. reflexivity.
+  - destruct bs as [|b r]; [reflexivity|].
+    cbn [ctake]. rewrite IH. unfold take. cbn [length Nat.leb firstn skipn].
+    destruct (Nat.leb n (length r)); reflexivity.
+Qed.
+
+Lemma cget_be_eq w bs : cget_be w bs = get_be w bs.
+Proof. unfold cget_be, get_be. rewrite ctake_eq. reflexivity. Qed.
+
+Lemma has_len_eq {A} : forall (bs : list A) n, has_len bs n = (n <=? blen bs).
+Proof.
+  induction bs as [|b r IH]; intro n; cbn [has_len].
+  - unfold blen. cbn. destruct (n =? 0) eqn:E; lia.
+  - destruct (n =? 0) eqn:E.
+    + unfold blen. lia.
+    + rewrite IH. unfold blen. cbn [length]. lia.
+Qed.
+
+Lemma ntake_eq : forall bs n,
+  ntake bs n = if n <=? blen bs then take (N.to_nat n) bs else None.
+Proof.
+  induction bs as [|b r IH]; intro n; cbn [ntake].
+  - destruct (n =? 0) eqn:E.
+    + apply N.eqb_eq in E. subst. reflexivity.
+    + unfold blen. cbn [length]. assert (L : (n <=? N.of_nat 0) = false) by lia. rewrite L. reflexivity.
+  - destruct (n =? 0) eqn:E.
+    + apply N.eqb_eq in E. subst. reflexivity.
+    + rewrite IH. unfold blen. cbn [length].
+      replace (N.to_nat n) with (S (N.to_nat (n - 1))) by lia.
+      destruct (n - 1 <=? N.of_nat (length r)) eqn:L.
+      * assert (L' : (n <=? N.of_nat (S (length r))) = true) by lia. rewrite L'.
+        unfold take. cbn [length Nat.leb firstn skipn].
+        destruct (Nat.leb (N.to_nat (n - 1)) (length r)); reflexivity.
+      * assert (L' : (n <=? N.of_nat (S (length r))) = false) by lia. rewrite L'. reflexivity.
+Qed.
+
+(* the definitions with [take] / [blen], which the lemmas below are about *)
+Definition p_bytes_len_old (max : N) : parser N :=
+  fun bs => match p_uvarint bs with
+            | Some (n, r) => if (n <=? max) && (n <=? blen r) then Some (n, r) else None
+            | None => None
+            end.
+Definition p_bytes_old (max : N) : parser bytes :=
+  fun bs => match p_bytes_len_old max bs with
+            | Some (n, r) => take (N.to_nat n) r
+            | None => None
+            end.
+Definition p_count_old (ck : count_kind) (max : N) : parser (option N) :=
+  fun bs =>
+    match ck with
+    | CKConst =>
+      match p_uvarint bs with
+      | Some (n, r) => if n <=? max then Some (Some n, r) else None
+      | None => None
+      end
+    | CKNilable =>
+      match p_uvarint bs with
+      | Some (v, r) => if v =? 0 then Some (None, r)
+                       else if v - 1 <=? max then Some (Some (v - 1), r) else None
+      | None => None
+      end
+    | CKRem =>
+      match p_uvarint bs with
+      | Some (n, r) => if n <=? blen r then Some (Some n, r) else None
+      | None => None
+      end
+    | CKPresRem =>
+      match bs with
+      | [] => None
+      | b :: r0 =>
+        if b =? 0 then Some (None, r0)
+        else if b =? 1 then
+          match p_uvarint r0 with
+          | Some (n, r) => if n <=? blen r then Some (Some n, r) else None
+          | None => None
+          end
+        else None
+      end
+    end.
+
+Lemma p_bytes_len_eq max bs : p_bytes_len max bs = p_bytes_len_old max bs.
+Proof.
+  unfold p_bytes_len, p_bytes_len_old. destruct (p_uvarint bs) as [[n r]|]; [|reflexivity].
+  rewrite has_len_eq. reflexivity.
+Qed.
+
+Lemma p_bytes_eq max bs : p_bytes max bs = p_bytes_old max bs.
+Proof.
+  unfold p_bytes, p_bytes_old, p_bytes_len_old. destruct (p_uvarint bs) as [[n r]|]; [|reflexivity].
+  rewrite ntake_eq. destruct (n <=? max); destruct (n <=? blen r); reflexivity.
+Qed.
+
+Lemma p_count_eq ck max bs : p_count ck max bs = p_count_old ck max bs.
+Proof.
+  unfold p_count, p_count_old. destruct ck; try reflexivity.
+  - destruct (p_uvarint bs) as [[n r]|]; [|reflexivity]. rewrite has_len_eq. reflexivity.
+  - destruct bs as [|b r0]; [reflexivity|]. destruct (b =? 0); [reflexivity|].
+    destruct (b =? 1); [|reflexivity].
+    destruct (p_uvarint r0) as [[n r]|]; [|reflexivity]. rewrite has_len_eq. reflexivity.
+Qed.
+
 (* ---- counts ------------------------------------------------------------------------ *)
 
 Lemma p_count_stable ck max a c r b :
   p_count ck max a = Some (c, r) -> p_count ck max (a ++ b) = Some (c, r ++ b).
 Proof.
-  unfold p_count. destruct ck.
+  rewrite !p_count_eq. unfold p_count_old. destruct ck.
   - destruct (p_uvarint a) as [[n r0]|] eqn:E; [|discriminate].
     unfold p_uvarint in *. rewrite (uvar_loop_stable _ _ _ _ _ _ b E).
     destruct (n <=? max); [|discriminate]. intro H; inversion H; subst. reflexivity.
@@ -157,7 +263,7 @@ Qed.
 Lemma p_count_shrinks ck max a c r :
   p_count ck max a = Some (c, r) -> (length r <= length a)%nat.
 Proof.
-  unfold p_count. destruct ck.
+  rewrite p_count_eq. unfold p_count_old. destruct ck.
   - destruct (p_uvarint a) as [[n r0]|] eqn:E; [|discriminate].
     apply uvar_loop_shrinks in E. destruct (n <=? max); [|discriminate].
     intro H; inversion H; subst. lia.
@@ -181,7 +287,7 @@ Lemma p_count_bounded ck max a n r :
   p_count ck max a = Some (Some n, r) ->
   (ck_rem ck = false -> n <= max) /\ (ck_rem ck = true -> n <= blen r).
 Proof.
-  unfold p_count. destruct ck; cbn [ck_rem].
+  rewrite p_count_eq. unfold p_count_old. destruct ck; cbn [ck_rem].
   - destruct (p_uvarint a) as [[m r0]|]; [|discriminate].
     destruct (m <=? max) eqn:L; [|discriminate]. intro H; inversion H; subst.
     split; intro; [lia|discriminate].
@@ -280,17 +386,17 @@ Proof.
   induction f; intros v0 rest Hwf; cbn [wf encode decode] in *.
   - (* FByte *) reflexivity.
   - (* FBool *) destruct v0; reflexivity.
-  - (* FBe *) apply get_be_put. apply N.ltb_lt. exact Hwf.
+  - (* FBe *) rewrite cget_be_eq. apply get_be_put. apply N.ltb_lt. exact Hwf.
   - (* FUvarint *) apply p_uvarint_put. apply N.ltb_lt. exact Hwf.
   - (* FVarint *)
     apply andb_true_iff in Hwf. destruct Hwf as [H1 H2].
     apply Z.leb_le in H1. apply Z.ltb_lt in H2.
     unfold p_varint, put_varint. rewrite p_uvarint_put by (apply zigzag_range; lia).
     rewrite unzigzag_zigzag by lia. reflexivity.
-  - (* FFixed *) apply take_app. apply Nat.eqb_eq. exact Hwf.
+  - (* FFixed *) rewrite ctake_eq. apply take_app. apply Nat.eqb_eq. exact Hwf.
   - (* FBytes *)
     apply andb_true_iff in Hwf. destruct Hwf as [H1 H2].
-    unfold p_bytes, p_bytes_len, put_bytes. rewrite <- app_assoc.
+    rewrite p_bytes_eq. unfold p_bytes_old, p_bytes_len_old, put_bytes. rewrite <- app_assoc.
     rewrite p_uvarint_put by (apply N.ltb_lt; exact H2).
     rewrite blen_app. assert (E : (blen v0 <=? blen v0 + blen rest) = true) by lia.
     rewrite H1, E. cbn [andb]. rewrite to_nat_blen. apply take_app. reflexivity.
@@ -319,7 +425,7 @@ Proof.
       { apply (rep_dec_enc (fun i => decode (f i)) (fun i => encode (f i)) (fun i => wf (f i))); [|exact Hall].
         intros i a r Ha. apply H. exact Ha. }
       unfold two64 in Hlen.
-      destruct ck; cbn [ck_rem put_count] in *; unfold p_count; rewrite <- app_assoc.
+      rewrite p_count_eq. destruct ck; cbn [ck_rem put_count] in *; unfold p_count_old; rewrite <- app_assoc.
       * rewrite p_uvarint_put by (unfold two64; lia). rewrite Hcnt, to_nat_blen, Hrep. reflexivity.
       * rewrite p_uvarint_put by (unfold two64; lia).
         assert (E0 : (blen l + 1 =? 0) = false) by lia. rewrite E0.
@@ -331,7 +437,7 @@ Proof.
       * cbn [app N.eqb Pos.eqb]. rewrite p_uvarint_put by (unfold two64; lia). rewrite blen_app.
         assert (E : (blen l <=? blen (rep_enc (fun i => encode (f i)) 0 l) + blen rest) = true) by lia.
         rewrite E, to_nat_blen, Hrep. reflexivity.
-    + destruct ck; cbn [ck_nilable put_count] in *; try discriminate; unfold p_count.
+    + rewrite p_count_eq. destruct ck; cbn [ck_nilable put_count] in *; try discriminate; unfold p_count_old.
       * rewrite p_uvarint_put by (unfold two64; lia). reflexivity.
       * reflexivity.
 Qed.
@@ -344,14 +450,15 @@ Proof.
   - (* FBool *) destruct a0 as [|x a0]; [discriminate|]. cbn [p_bool app] in *.
     destruct (x =? 0); [inversion Hd; subst; reflexivity|].
     destruct (x =? 1); [inversion Hd; subst; reflexivity|discriminate].
-  - (* FBe *) unfold get_be in *. destruct (take w a0) as [[h t]|] eqn:E; [|discriminate].
+  - (* FBe *) rewrite cget_be_eq in *. unfold get_be in *. destruct (take w a0) as [[h t]|] eqn:E; [|discriminate].
     rewrite (take_stable _ _ _ _ b0 E). inversion Hd; subst. reflexivity.
   - (* FUvarint *) apply uvar_loop_stable. exact Hd.
   - (* FVarint *) unfold p_varint in *. destruct (p_uvarint a0) as [[u t]|] eqn:E; [|discriminate].
     unfold p_uvarint in *. rewrite (uvar_loop_stable _ _ _ _ _ _ b0 E). inversion Hd; subst. reflexivity.
-  - (* FFixed *) apply take_stable. exact Hd.
+  - (* FFixed *) rewrite ctake_eq in *. apply take_stable. exact Hd.
   - (* FBytes *)
-    unfold p_bytes, p_bytes_len in *. destruct (p_uvarint a0) as [[m t]|] eqn:E; [|discriminate].
+    rewrite p_bytes_eq in *.
+    unfold p_bytes_old, p_bytes_len_old in *. destruct (p_uvarint a0) as [[m t]|] eqn:E; [|discriminate].
     unfold p_uvarint in *. rewrite (uvar_loop_stable _ _ _ _ _ _ b0 E).
     destruct ((m <=? max) && (m <=? blen t)) eqn:L; [|discriminate].
     apply andb_true_iff in L. destruct L as [L1 L2].
@@ -395,13 +502,13 @@ Proof.
   - destruct a0 as [|x a0]; [discriminate|]. cbn [p_bool] in Hd.
     destruct (x =? 0); [inversion Hd; subst; cbn; lia|].
     destruct (x =? 1); [inversion Hd; subst; cbn; lia|discriminate].
-  - unfold get_be in Hd. destruct (take w a0) as [[h t]|] eqn:E; [|discriminate].
+  - rewrite cget_be_eq in Hd. unfold get_be in Hd. destruct (take w a0) as [[h t]|] eqn:E; [|discriminate].
     apply take_shrinks in E. inversion Hd; subst. exact E.
   - apply uvar_loop_shrinks in Hd. lia.
   - unfold p_varint in Hd. destruct (p_uvarint a0) as [[u t]|] eqn:E; [|discriminate].
     apply uvar_loop_shrinks in E. inversion Hd; subst. lia.
-  - apply take_shrinks in Hd. exact Hd.
-  - unfold p_bytes, p_bytes_len in Hd. destruct (p_uvarint a0) as [[m t]|] eqn:E; [|discriminate].
+  - rewrite ctake_eq in Hd. apply take_shrinks in Hd. exact Hd.
+  - rewrite p_bytes_eq in Hd. unfold p_bytes_old, p_bytes_len_old in Hd. destruct (p_uvarint a0) as [[m t]|] eqn:E; [|discriminate].
     apply uvar_loop_shrinks in E. destruct ((m <=? max) && (m <=? blen t)); [|discriminate].
     apply take_shrinks in Hd. lia.
   - inversion Hd; subst. lia.
@@ -490,7 +597,7 @@ Proof.
   induction f; intros c bs Hc; cbn [allocs capped] in *; try constructor.
   - (* FBytes *)
     destruct (p_bytes_len max bs) as [[n r]|] eqn:E; [|constructor].
-    constructor; [|constructor]. unfold p_bytes_len in E.
+    constructor; [|constructor]. rewrite p_bytes_len_eq in E. unfold p_bytes_len_old in E.
     destruct (p_uvarint bs) as [[m t]|] eqn:E1; [|discriminate].
     apply uvar_loop_shrinks in E1.
     destruct ((m <=? max) && (m <=? blen t)) eqn:L; [|discriminate].
